@@ -461,6 +461,12 @@ class C20(PropBase):
                 for modes in ("-", "j", "c"):
                     add("symbols_url", mk(inp, sym, modes, rng.below(2) if modes != "j" else 0, rng.below(2) if modes != "-" else 0,
                                           rng.choice([0, 2, 9]), 0, rng.choice(["-", "g"])))
+        # --symbols-download-timeout-secs reaches the HTTP client: a download the default (1000 s) waits for (the server answers after
+        # 1.5 s: the symbols must be there, as in the library called with that timeout), and one that `1` gives up on (the server
+        # answers after 8 s: the report is the library's for the same timeout)
+        for sym in ("U2s", "U2w"):
+            for modes, brief in (("-", 1), ("j", 0)):
+                add("symbols_url", mk("F:test.dmp", sym, modes, brief, 0, 9, 0, rng.choice(["-", "g"])))
         # J. --use-local-debuginfo on x86 / amd64 / arm64 dumps, with and without a system info stream
         for inp in ("F:test.dmp", "F:linux-mini.dmp", "F:simple-crashpad.dmp", "S:0", "S:1", "S:5", "S:6", "X:missing"):
             for modes in ("-", "j", "D", "c"):
